@@ -29,7 +29,7 @@ CONFIGS = ['default', 'string-atom', 'custom-operators', 'unit-parser', 'subset-
 FAIL_KINDS = ['unknown-atom', 'missing-operand', 'unbalanced-open', 'unbalanced-close', 'arity', 'nested-argument', 'atom-ctor']
 REQUIRED_CLASSES = (['cfg-' + c for c in CONFIGS] + ['fail-' + k for k in FAIL_KINDS] +
                     ['valid-after-failure', 'failure-after-failure', 'valid-after-valid', 'failure-after-valid',
-                     'atom-ctor-fault-after-first-atom', 'failure-in-operate-phase'] +
+                     'atom-ctor-fault-after-first-atom', 'failure-in-operate-phase', 'repeated-text'] +
                     ['cfg-%s:fail-atom-ctor' % c for c in CONFIGS])
 REQUIRED_MONITORS = ['differential_compares', 'step_guarded_calls', 'fresh_instances']
 ASSUMPTIONS = ['outcome of a solve = value (rtol 1e-12, equal truthiness; strings / unit atoms exactly) or (exception type, repr(args))',
@@ -270,6 +270,14 @@ def cases(rng, tier, shard, nshards, ctx):
         cfg = CONFIGS[(i + shard) % len(CONFIGS)]
         hist = []
         for _ in range(rng.randint(2, 12)):
+            if hist and rng.random() < 0.15:
+                # an earlier text again, with the fault driver armed differently (or not at all)
+                e = dict(rng.choice(hist))
+                natoms = max(1, sum(1 for t in R.lex(e['text']) or [] if t[0] == 'num'))
+                e['fail_at'] = rng.choice([None, None, rng.randint(1, natoms)])
+                e['kind'] = 'repeat'
+                hist.append(e)
+                continue
             kind = 'valid' if rng.random() < 0.45 else rng.choice(KINDS_FOR[cfg])
             hist.append(gen_entry(rng, cfg, kind))
         yield dict(cfg=cfg, hist=hist)
@@ -354,13 +362,15 @@ def run_case(case, ctx):
         mon['fresh_instances'] += 1
         failed = out_f[0] != 'v'
         if failed:
-            kind = entry['kind'] if entry['kind'] != 'valid' else 'other'
+            kind = entry['kind'] if entry['kind'] not in ('valid', 'repeat') else 'other'
             classes.add('fail-' + kind)
             classes.add('cfg-%s:fail-%s' % (cfg, kind))
             if entry.get('fail_at') and entry['fail_at'] > 1 and out_f[1] == 'InjectedFault':
                 classes.add('atom-ctor-fault-after-first-atom')
             if out_f[0] == 'e' and out_f[1] in ('AttributeError', 'TypeError'):
                 classes.add('failure-in-operate-phase')
+        if entry['kind'] == 'repeat':
+            classes.add('repeated-text')
         if prev_failed is not None:
             classes.add('%s-after-%s' % ('failure' if failed else 'valid', 'failure' if prev_failed else 'valid'))
             if prev_failed or any(r[3] for r in rows):
